@@ -13,6 +13,7 @@ VARS = {
     "odd": ["S", "1st", "_tmp", "#n", "Éa", "x-y"],
     "cnfnames": ["S", "C#CNF#2", "C#CNF#4", "C#CNF#1"],
     "lookalike": [0, "0", 1, "1", "S"],
+    "eqprint": ["S", 1, True, 0, False],                       # equal and hash-equal values that print differently
     "spaced": ["S", "A", "B", "C"],                            # terminals whose concatenated texts coincide                        # different values that print alike
     "freshnames": ["S", "#STARTCLOS#", "#STARTCONC#", "#STARTPOSCLOS#", "#VARPOSCLOS#"],
     "emptyname": ["#EMPTY", "S", "A", "#EMPTY#SUBS#0", "B"],   # the placeholder name substitute() gives a start-less operand         # variables that are neither lower- nor upper-case initial
@@ -20,10 +21,10 @@ VARS = {
 TERMS = {
     "str": ["a", "b", "c", "d", "e"], "int": ["a", "b", "c"], "clash": ["a", "b", "c"],
     "reserved": ["a", "#0UNION#", "#1CONC#"], "lower": ["a", "b", "Cap"], "lowerclash": ["n", "b", "Cap"], "termlike": ["a", "b", "c"],
-    "lookalike": ["a", 1, "1"], "spaced": ["a", "b", "a b", "b a"], "freshnames": ["a", "#1CLOS#", "#1POSCLOS#"],
+    "lookalike": [1, "1", "a"], "eqprint": ["a", "b", "c"], "spaced": ["a", "b", "a b", "b a"], "freshnames": ["a", "#1CLOS#", "#1POSCLOS#"],
     "odd": ["a", "Éb", "2"], "emptyname": ["a", "b", "c"], "cnfnames": ["a", "b", "c"],
 }
-VCS = ["str", "str", "str", "int", "clash", "reserved", "lower", "termlike", "inject", "inject", "lookalike", "freshnames", "spaced"]
+VCS = ["str", "str", "str", "int", "clash", "reserved", "lower", "termlike", "inject", "inject", "lookalike", "freshnames", "spaced", "eqprint"]
 
 
 def random_case(rng, max_vars=4, max_terms=2, max_prods=7, max_body=4, vcs=None, p_eps=None):
